@@ -86,8 +86,8 @@ theorem ttuRows_ok (E : Env) (sub : Subject) (rec : VKey → Ctx → World → R
       | head => rw [hs] at hs'; cases hs'
       | tail _ ht'' => exact hall t' ht'' n' o' r' hs'
 
-/-- Page loop of the tuple-to-subject-set listing (no storage faults). -/
-theorem ttuPages_ok (E : Env) (hf : ∀ k, E.fails k = false) (sub : Subject)
+/-- Page loop of the tuple-to-subject-set listing (a storage fault decides the group). -/
+theorem ttuPages_ok (E : Env) (sub : Subject)
     (rec : VKey → Ctx → World → Res × World)
     (P : VKey → List VKey → Prop) (hP : ∀ s, PExt E sub (P s)) (c : Ctx) :
     ∀ (ps : List (List Tuple)) (g : Option Res) (w : World), Valid c w →
@@ -105,23 +105,23 @@ theorem ttuPages_ok (E : Env) (hf : ∀ k, E.fails k = false) (sub : Subject)
     split
     · next x =>
       exact ⟨Frame.refl _ _, id, fun h => by cases h⟩
-    · have hcall : (w.call E).1 = false := World.call_ok E hf w
-      simp only [hcall, Bool.false_eq_true, if_false]
-      have hfr0 : Frame c.vref w (w.call E).2 := Frame.ofCall _ E w
-      have hv0 : Valid c (w.call E).2 := hv.frame hfr0
-      have hvis0 : vis c (w.call E).2 = vis c w := vis_heap_eq rfl
-      have h1 := ttuRows_ok E sub rec P hP c p none (w.call E).2 hv0 (hrec p (List.mem_cons_self ..))
-      have ih := ttuPages_ok E hf sub rec P hP c ps (ttuRows rec p none c (w.call E).2).1
-        (ttuRows rec p none c (w.call E).2).2 (hv0.frame h1.1)
-        (fun p' hp' => hrec p' (List.mem_cons_of_mem _ hp'))
-      refine ⟨(hfr0.trans h1.1).trans ih.1, fun _ => ih.2.1 (h1.2.1 GDec.none), fun hnone hlim => ?_⟩
-      obtain ⟨hg, hext, hall⟩ := ih.2.2 hnone hlim
-      obtain ⟨_, hext1, hall1⟩ := h1.2.2 hg (lim_zero_of_frame ih.1 hlim)
-      rw [hvis0] at hext1 hall1
-      refine ⟨trivial, hext1.trans hext, fun p' hp' t ht n o r hs => ?_⟩
-      cases hp' with
-      | head => exact hall1 t ht n o r hs
-      | tail _ hp'' => exact fun hp => hall p' hp'' t ht n o r hs (hP _ _ _ hext1 hp)
+    · have hfr0 : Frame c.vref w (w.call E).2 := Frame.ofCall _ E w
+      split
+      · exact ⟨hfr0, fun _ x hx => by cases hx; rfl, fun h => by cases h⟩
+      · have hv0 : Valid c (w.call E).2 := hv.frame hfr0
+        have hvis0 : vis c (w.call E).2 = vis c w := vis_heap_eq rfl
+        have h1 := ttuRows_ok E sub rec P hP c p none (w.call E).2 hv0 (hrec p (List.mem_cons_self ..))
+        have ih := ttuPages_ok E sub rec P hP c ps (ttuRows rec p none c (w.call E).2).1
+          (ttuRows rec p none c (w.call E).2).2 (hv0.frame h1.1)
+          (fun p' hp' => hrec p' (List.mem_cons_of_mem _ hp'))
+        refine ⟨(hfr0.trans h1.1).trans ih.1, fun _ => ih.2.1 (h1.2.1 GDec.none), fun hnone hlim => ?_⟩
+        obtain ⟨hg, hext, hall⟩ := ih.2.2 hnone hlim
+        obtain ⟨_, hext1, hall1⟩ := h1.2.2 hg (lim_zero_of_frame ih.1 hlim)
+        rw [hvis0] at hext1 hall1
+        refine ⟨rfl, hext1.trans hext, fun p' hp' t ht n o r hs => ?_⟩
+        cases hp' with
+        | head => exact hall1 t ht n o r hs
+        | tail _ hp'' => exact fun hp => hall p' hp'' t ht n o r hs (hP _ _ _ hext1 hp)
 
 /-- The loop of `checkExpandSubject`: the depth-first search proper. A subject set that is already
     marked is skipped (it is in the start set, or it was marked in this loop and is dead); one that
